@@ -354,6 +354,13 @@ def run_async(make_learner, cfg, rng, ask_hook=None, coroutine=False, sched=None
             return done, [f for f in futures if f not in done]
         rec.begin("run remaining -")
         rec.flat.append(("remaining", []))
+        if futures and cfg.get("double_cancel") and not state.get("second_cancel") and \
+                any(c[0] == "cancel_event" for c in rec.flat):
+            # a second cancel() while the runner is still waiting for the evaluations it could not cancel
+            state["second_cancel"] = True
+            rec.flat.append(("cancel_event2",))
+            runner_box[0].cancel()
+            await REAL_ASYNCIO.sleep(0)
         if futures:
             await REAL_ASYNCIO.wait(futures)
         return set(futures), set()
